@@ -1,5 +1,7 @@
 SPECIFICATION Spec
 CONSTANTS
+  KeyScalars = {1, 2, 3, 121, 122}
+  VDeltas = {1, 2, 27, 54, 56, 60}
   DataLens = {0, 1, 54, 55, 56, 64}
   HashBits = {0, 1, 7, 8, 128, 255}
   SignBits = {0, 7, 255, 256, 511, 512, 519}
